@@ -62,10 +62,10 @@ def gen_program(seed):
     for _ in range(r.randint(1, 6)):
         g = ident(r, used)
         globs.append(g)
-        out.append(f"let {g} = {r.randint(1, 9)}.0" + (f" * {r.choice(globs)}" if len(globs) > 1 and r.random() < 0.4 else ""))
+        out.append(f"let {g} = {r.randint(1, 9)}.0" + (f" * {r.choice(globs[:-1])}" if len(globs) > 1 and r.random() < 0.4 else ""))
     for n, fs in records:
         f = ident(r, used)
-        out.append(f"fn {f}(a: {r.choice(aliases)}) -> float {{\n  let rec:{n} = {{{', '.join(x + ' = a * ' + str(i + 1) + '.0' for i, x in enumerate(fs))}}}\n  rec.{r.choice(fs)} + {r.choice(globs)}\n}}")
+        out.append(f"fn {f}(a: {r.choice(aliases)}) -> float {{\n  let rcd:{n} = {{{', '.join(x + ' = a * ' + str(i + 1) + '.0' for i, x in enumerate(fs))}}}\n  rcd.{r.choice(fs)} + {r.choice(globs)}\n}}")
         calls.append(f"{f}({r.randint(1, 5)}.0)")
     for n, vs in enums:
         f = ident(r, used)
@@ -90,9 +90,93 @@ def gen_program(seed):
         f = ident(r, used)
         out.append(f"fn {f}(inc) {{\n  self + inc\n}}")
         calls.append(f"{f}({r.choice(globs)})")
+    body = []
+    # --- constructs whose layout / listing / diagnostics depend on an ORDER of identifiers (record fields, constructors,
+    # module members, type parameters): names are written in random (often non-alphabetical) order
+    if r.random() < 0.7:   # record literal with stateful field initialisers: slot order shows in the state skeleton
+        cnt = ident(r, used)
+        out.append(f"fn {cnt}(inc) {{\n  self + inc\n}}")
+        fs = [ident(r, used) for _ in range(r.randint(2, 4))]
+        inits = []
+        for i, x in enumerate(fs):
+            c = r.randrange(4)
+            inits.append(f"{x} = " + (f"delay({r.randint(3, 9)}.0, {cnt}(1.0), {r.randint(1, 2)}.0)" if c == 0 else
+                                      f"{cnt}({i + 2}.0)" if c == 1 else f"mem({r.choice(globs)})" if c == 2 else f"{cnt}(1.0) * {i + 1}.0"))
+        rv = ident(r, used)
+        body.append(f"let {rv} = {{{', '.join(inits)}}}")
+        calls.append(" + ".join(f"{rv}.{x} * {10 ** i}.0" for i, x in enumerate(fs)))
+    if r.random() < 0.5:   # a function returning a record that holds a closure next to a wider field
+        mk, fa, fb, rv = ident(r, used), ident(r, used), ident(r, used), ident(r, used)
+        if r.random() < 0.5:
+            fa, fb = sorted([fa, fb])
+        out.append(f"fn {mk}(n) {{\n  {{{fa} = |x| x + n, {fb} = (10.0, 20.0)}}\n}}")
+        body.append(f"let {rv} = {mk}({r.randint(1, 9)}.0)")
+        calls.append(f"{rv}.{fa}(1.0) * 100.0 + {rv}.{fb}.1")
+    if r.random() < 0.4:   # explicit type parameters
+        f, ta, tb = ident(r, used), ident(r, used), ident(r, used)
+        out.append(f"fn {f}(x:{ta}, y:{tb}) -> {ta} {{\n  x\n}}")
+        calls.append(f"{f}({r.randint(1, 9)}.0, {r.randint(1, 9)}.0)")
+    if r.random() < 0.4:   # module members
+        m, fa, fb = ident(r, used), ident(r, used), ident(r, used)
+        out.append(f"mod {m} {{\n  pub fn {fa}(x) {{\n    x + 1.0\n  }}\n  pub fn {fb}(x) {{\n    x * 2.0\n  }}\n}}")
+        calls.append(f"{m}::{fb}(2.0) + {m}::{fa}(3.0)")
+    if r.random() < 0.15:  # a type error whose message prints a record type
+        fs = [ident(r, used) for _ in range(r.randint(2, 3))]
+        rv = ident(r, used)
+        body.append(f"let {rv}:float = {{{', '.join(x + ' = ' + str(i + 1) + '.0' for i, x in enumerate(fs))}}}")
+        calls.append(rv)
     r.shuffle(calls)
-    out.append("fn dsp() {\n  " + " + ".join(calls or ["0.0"]) + "\n}")
+    out.append("fn dsp() {\n  " + "\n  ".join(body + [" + ".join(calls or ["0.0"])]) + "\n}")
     return "\n".join(out) + "\n"
+
+
+KEYWORDS = {"fn", "macro", "self", "now", "samplerate", "let", "letrec", "if", "else", "match", "float", "int", "string",
+            "struct", "include", "stage", "main", "mod", "use", "pub", "type", "alias", "rec", "_", "dsp"}
+
+
+def identifiers(src):
+    """user identifiers of a source in order of first mention (comments and string literals removed)"""
+    import re
+    src = re.sub(r"/\*.*?\*/", " ", src, flags=re.S)
+    src = re.sub(r"//[^\n]*", " ", src)
+    src = re.sub(r'"(?:[^"\\]|\\.)*"', " ", src)
+    seen, out = set(), []
+    for m in re.finditer(r"[A-Za-z_][A-Za-z0-9_]*", src):
+        n = m.group(0)
+        if n not in KEYWORDS and n not in seen and not n[0].isdigit():
+            seen.add(n)
+            out.append(n)
+    return out
+
+
+def warmup_file(target, mode, seed):
+    """an unrelated program that merely MENTIONS the target's identifiers (as parameter names and as the fields of a record
+    literal) in another order, so that the process-global interner has issued their ids in that order before the target
+    is compiled: `rev` = reversed first-mention order (every pair flips w.r.t. a fresh process), `desc` = descending
+    alphabetical, `shuf` = seeded shuffle"""
+    try:
+        names = identifiers(open(target, encoding="utf-8", errors="replace").read())
+    except OSError:
+        names = []
+    if mode == "rev":
+        names = names[::-1]
+    elif mode == "desc":
+        names = sorted(names, reverse=True)
+    else:
+        random.Random(f"{seed}:{target}").shuffle(names)
+    names = names[:400]
+    out = []
+    for i in range(0, len(names), 6):
+        ch = names[i:i + 6]
+        out.append(f"fn wu_{mode}_{i // 6}({', '.join(ch)}) {{\n  0.0\n}}")
+    out.append("fn dsp() {\n  0.0\n}")
+    d = os.path.join(WORK, "C15warm")
+    os.makedirs(d, exist_ok=True)
+    p = os.path.join(d, hashlib.sha1(target.encode()).hexdigest()[:10] + f"_{mode}.mmm")
+    src = "\n".join(out) + "\n"
+    if not os.path.exists(p) or open(p).read() != src:
+        open(p, "w").write(src)
+    return p
 
 
 def generated_files(seed, n):
@@ -142,21 +226,28 @@ def run_seq(items, tag, dump=None, timeout=900):
 
 def check_target(job):
     """returns dict(target, lines, problems)"""
-    target, hist_pool, nproc, reps, seed = job
+    target, hist_pool, nproc, reps, seed = job[:5]
+    warm_modes = job[5] if len(job) > 5 else []
     r = random.Random(hashlib.sha1(f"{seed}:{target}".encode()).hexdigest())
     res = {"target": target, "compiles": 0, "problems": [], "status": "?", "nontrivial": False, "ref": None}
     ref = None
-    for k in range(nproc):
-        hist = r.sample(hist_pool, min(len(hist_pool), 8)) if hist_pool else []
-        pinned = [h for h in hist_pool if os.sep + "corpus" + os.sep in h]
-        hist = pinned + [h for h in hist if h not in pinned]
-        items = items_for(target, hist, k, reps)
+    for k in list(range(nproc)) + warm_modes:
+        if isinstance(k, str):
+            # fresh process, ONE warm-up program that mentions the target's identifiers in another order, then the target
+            items, nrec = ["H:" + warmup_file(target, k, seed), "T:" + target], 1
+        else:
+            hist = r.sample(hist_pool, min(len(hist_pool), 8)) if hist_pool else []
+            pinned = [h for h in hist_pool if os.sep + "corpus" + os.sep in h]
+            hist = pinned + [h for h in hist if h not in pinned]
+            items, nrec = items_for(target, hist, k, reps), reps
         try:
             p, recs = run_seq(items, f"p{k}")
+            if isinstance(k, str):
+                res["warmups"] = res.get("warmups", 0) + 1
         except Exception as e:  # timeout
             res["problems"].append({"kind": "harness-timeout", "target": target, "items": items, "err": str(e)[:200]})
             continue
-        if p.returncode != 0 or len(recs) != reps:
+        if p.returncode != 0 or len(recs) != nrec:
             res["problems"].append({"kind": "harness-crash", "target": target, "items": items, "rc": p.returncode,
                                     "records": len(recs), "stderr": p.stderr[-800:]})
             continue
@@ -414,6 +505,10 @@ def main(ctx, args):
     if args.replay:
         rp = json.load(open(args.replay))
         if "items" in rp:
+            for path, src in rp.get("sources", {}).items():
+                if not os.path.exists(path):
+                    os.makedirs(os.path.dirname(path), exist_ok=True)
+                    open(path, "w").write(src)
             pr = {"target": rp["target"], "items": rp["items"], "ref_items": rp.get("ref_items", rp["items"])}
             pr = explain(pr, tries=16)
             if pr.get("first_difference"):
@@ -422,7 +517,7 @@ def main(ctx, args):
         icorr = interner_correspondence("C15", ctx.seed, 1, 4)
     else:
         cdir = os.path.join(VERIF, "corpus", "C15")
-        seeds = sorted(glob.glob(os.path.join(cdir, "f*.mmm")))
+        seeds = sorted(glob.glob(os.path.join(cdir, "f*.mmm")) + glob.glob(os.path.join(cdir, "s_*.mmm")))
         seed_hist = sorted(glob.glob(os.path.join(cdir, "h_*.mmm")))
         files = seeds + corpus_files()
         gen = generated_files(ctx.seed, 40 if quick else 200)
@@ -432,9 +527,11 @@ def main(ctx, args):
         heavy = [f for f in files if cost[f] >= 0.25]
         hist_pool = sorted(cheap, key=weight, reverse=True)[:60]
         nproc = 8
-        jobs = [(f, (seed_hist + hist_pool) if f in seeds else hist_pool, nproc, 5, ctx.seed) for f in cheap]
+        alt = lambda f: "desc" if int(hashlib.sha1(f.encode()).hexdigest(), 16) % 2 else "shuf"
+        jobs = [(f, (seed_hist + hist_pool) if f in seeds else hist_pool, nproc, 5, ctx.seed,
+                 ["rev", alt(f)] if quick else ["rev", "desc", "shuf"]) for f in cheap]
         # heavy files (> 0.25 s per compilation): quick = 1 process x 2 histories (+ the history-free cost pass = 2nd process)
-        jobs += [(f, hist_pool[:20], 1 if quick else 8, 2 if quick else 3, ctx.seed) for f in heavy]
+        jobs += [(f, hist_pool[:20], 1 if quick else 8, 2 if quick else 3, ctx.seed, ["rev"] if quick else ["rev", "desc", "shuf"]) for f in heavy]
         jobs.sort(key=lambda j: -cost[j[0]])
         results = parallel(jobs, check_target)
         for f, dt, recs in costs:  # the cost pass is one more fresh process without history
@@ -477,8 +574,11 @@ def main(ctx, args):
         for p in new:
             by_t.setdefault(p["target"], []).append(p)
         best_t = min(by_t, key=lambda t: os.path.getsize(t) if os.path.exists(t) else 1 << 30)
-        pr = explain(dict(by_t[best_t][0]))
+        pr = explain(dict(min(by_t[best_t], key=lambda q: len(q.get("items", [])))))
         pr["source"] = open(best_t, errors="replace").read()[:4000] if os.path.exists(best_t) else None
+        # generated targets / warm-up programs live under work/ (not committed): the replay carries their text
+        pr["sources"] = {x[2:]: open(x[2:], errors="replace").read() for x in pr.get("items", []) + pr.get("ref_items", [])
+                         if x[2:].startswith(WORK) and os.path.exists(x[2:])}
         pr["replay_cmd"] = "./check C15 --replay <this file>"
         pr["nondeterministic_targets"] = [relname(t) for t in by_t][:30]
         ctx.violation(f"same source compiled twice gives different {pr['differs_in']}: {best_t} ({len(by_t)} targets affected)", pr)
@@ -502,12 +602,14 @@ def main(ctx, args):
         "evaluations": sum(r["compiles"] for r in results) + icorr["schedules"],
         "distinct_nontrivial": len(set(r["target"] for r in ok_t)),
         "rule": "a case = one source file (shipped .mmm under lib/, examples/, mimium-test/tests/mmm + generated programs with many type aliases/records/enums/globals); "
-                "it is compiled 5x in each of 8 fresh processes (heavy files: fewer), each time after a different history of other compilations; all 8 artefacts "
+                "it is compiled 5x in each of 8 fresh processes (heavy files: fewer), each time after a different history of other compilations, plus in fresh processes after ONE "
+                "warm-up program that mentions the target's own identifiers (record fields, constructors, functions, type parameters, module members) in reversed / descending / shuffled order; all artefacts "
                 "(diagnostics, bytecode listing, ext/type tables, WASM bytes, MIR listing, dsp state skeleton, 32 VM samples, generated Rust) must have equal digests and the "
                 "Program must be structurally equal to the first of its process; distinct = distinct path, non-trivial = the source compiles to bytecode with at least one function",
         "samples": samples + icorr["samples"],
         "compilations_compared": sum(r["compiles"] for r in results),
         "targets": len(results),
+        "identifier_order_warmup_processes": sum(r.get("warmups", 0) for r in results),
         "target_status": dict(st_hist),
         "nondeterministic_targets": len(set(p["target"] for p in nondet)),
         "nondeterministic_targets_not_known": len(set(p["target"] for p in new)),
